@@ -1185,7 +1185,7 @@ def _harness(fn, s, k, mode, order, follow):
     kk = _pick(k, bound + 1)
     o, h, p = modes[_pick(mode, len(modes))]
     f = _pick(follow, N_FOLLOW) if FOLLOW and not only_flag else 0       # the flag harnesses need no follow-up
-    od = 1 if order else 0
+    od = 0 if only_flag else (1 if order else 0)                         # ... and one walk order
     with NoTracing():
         if traced: holds, key = Helper.call('judge', only_flag, si, kk, o, h, p, f, od)
         else:                          # replay of a counterexample (untraced, in-process)
